@@ -200,4 +200,24 @@ def tlsdial (toks : List String) : String :=
     s!"{os} created={if cr then 1 else 0} elapsed={el}"
   | _ => "bad-op"
 
+/-- a second dial of the same (root-PEM) transport to another host, the server presenting a certificate for
+    the first host: the library's configuration takes the server name from the dialed address -/
+def tlsdial2 (toks : List String) : String :=
+  match toks with
+  | [ck] =>
+    match TLS.dialConfig none (some (some 0)) "other.example.com" with
+    | none => "fail"
+    | some cfg =>
+      let host := "good.example.com"
+      let cert : TLS.Cert := match ck with
+        | "valid" => ⟨.pem 0, [host], true⟩
+        | "otherca" => ⟨.pem 1, [host], true⟩
+        | "othername" => ⟨.pem 0, ["evil.example.com"], true⟩
+        | "expired" => ⟨.pem 0, [host], false⟩
+        | _ => ⟨.pem 2, [host], true⟩
+      match (TLS.dial cfg cert .handshakes 0).1 with
+      | .ok => "ok"
+      | _ => "fail"
+  | _ => "bad-op"
+
 end Sat
